@@ -13,7 +13,7 @@ ObsAns(r) == IF r.why # "" THEN NoAns
              ELSE [got |-> TRUE, echo |-> r.ans.echo, sid |-> r.ans.sid, type |-> r.ans.type, num |-> r.ans.num,
                    mscc |-> r.ans.mscc, granted |-> r.ans.granted, fui |-> r.ans.fui]
 Req == [key |-> Ev.args.key, action |-> Ev.args.action, type |-> Ev.args.type, num |-> Ev.args.num,
-        sid |-> Ev.args.sid, amt |-> Ev.args.amt]
+        sid |-> Ev.args.sid, amt |-> Ev.args.amt, form |-> Ev.args.form]
 SameAns(a, b) == a.got = b.got /\ (a.got => (a.echo = b.echo /\ a.mscc = b.mscc /\ a.fui = b.fui /\ a.granted = b.granted
                                              /\ (a.echo => (a.sid = b.sid /\ a.type = b.type /\ a.num = b.num))))
 Reset == /\ Ev.action = "reset" /\ pre' = ObsDb(Ev.state) /\ UNCHANGED <<viol, div>>
